@@ -1,6 +1,7 @@
 //! C18 — byte-level VByte functions agree with the bit-stream codes and are complete.
 
 use super::common::*;
+use crate::backends::{Fault, FaultyIo};
 use crate::drivers::*;
 use crate::model::*;
 use crate::report::{hex, unhex, Kv, Report};
@@ -34,6 +35,99 @@ fn io_read(bytes: &[u8], big: bool, generic: bool) -> Out<(u64, usize)> {
         .map_err(|e| e.to_string())?;
         Ok((v, cur.position() as usize))
     })
+}
+
+/// The io functions over byte streams that behave as std::io allows them to: at most `m` bytes per
+/// call, an Interrupted now and then, a sink with too little room, a hard error. The code must come
+/// out whole (or an error must be reported), and decoding must consume exactly the code.
+pub fn check_hostile_io(v: u64, ci: usize, rep: &mut Report) {
+    for big in [true, false] {
+        let name = if big { "be" } else { "le" };
+        let model = vbyte_bytes(v, big);
+        let kvf = || format!("kind=hostile v={} ci={}", v, ci);
+        let wr = |io: &mut dyn std::io::Write, generic: bool| -> Out<usize> {
+            guard(|| {
+                let mut io = io;
+                match (big, generic) {
+                    (true, false) => vbyte_write_be(v, &mut io),
+                    (false, false) => vbyte_write_le(v, &mut io),
+                    (true, true) => vbyte_write::<BE, _>(v, &mut io),
+                    (false, true) => vbyte_write::<LE, _>(v, &mut io),
+                }
+                .map_err(|e| format!("{:?}", e.kind()))
+            })
+        };
+        for m in 1..=3usize {
+            for (si, sched) in [vec![], vec![Fault::Interrupted], vec![Fault::Limit(1), Fault::Interrupted, Fault::Limit(2)], vec![Fault::Limit(m), Fault::Limit(1), Fault::Interrupted, Fault::Interrupted]].iter().enumerate() {
+                let generic = (ci + si) % 2 == 1;
+                // ---- write: short writes and interruptions are not errors: the whole code must arrive ----
+                let mut sink = FaultyIo::new(vec![0xEE], sched.clone(), Fault::Limit(m));
+                sink.pos = 1;
+                let r = wr(&mut sink, generic);
+                rep.eval(1);
+                let mut exp = vec![0xEE];
+                exp.extend_from_slice(&model);
+                match &r {
+                    Out::Ok(n) if *n == model.len() && sink.data == exp => {}
+                    Out::Err(_) if sched.is_empty() && m >= 1 => rep.violation(&format!("{}|io-write-short|spurious-error", name), || format!("vbyte_write_{}({}) over a sink taking {} bytes per call: {}", name, v, m, r.show()), kvf),
+                    Out::Err(_) => {
+                        // an error was reported: nothing is claimed about the sink then
+                        rep.count("hostile_writes_reporting_an_error", 1);
+                    }
+                    o => rep.violation(
+                        &format!("{}|io-write-short|{}", name, if o.is_ok() { "truncated-or-miscounted" } else { "panic" }),
+                        || format!("vbyte_write_{}({}) over a sink taking at most {} bytes per call (schedule {:?}) returned {} and the sink holds {}; the code is {}", name, v, m, sched, o.show(), hex(&sink.data[1..]), hex(&model)),
+                        kvf,
+                    ),
+                }
+                // ---- read: short reads and interruptions ----
+                let mut data = model.clone();
+                data.extend_from_slice(&[0x81, 0x7f, 0x00]);
+                let mut src = FaultyIo::new(data, sched.clone(), Fault::Limit(m));
+                let rr = guard(|| {
+                    match (big, generic) {
+                        (true, false) => vbyte_read_be(&mut src),
+                        (false, false) => vbyte_read_le(&mut src),
+                        (true, true) => vbyte_read::<BE, _>(&mut src),
+                        (false, true) => vbyte_read::<LE, _>(&mut src),
+                    }
+                    .map_err(|e| format!("{:?}", e.kind()))
+                });
+                rep.eval(1);
+                if rr != Out::Ok(v) || src.pos != model.len() {
+                    rep.violation(
+                        &format!("{}|io-read-short|{}", name, if rr.is_ok() { "wrong-value-or-consumption".into() } else { rr.class() }),
+                        || format!("vbyte_read_{} of {} through a source giving at most {} bytes per call (schedule {:?}) = {} having consumed {} bytes; expected {} and {} bytes", name, hex(&model), m, sched, rr.show(), src.pos, v, model.len()),
+                        kvf,
+                    );
+                }
+            }
+        }
+        // ---- a sink with less room than the code, and a hard error: must be reported, never Ok ----
+        for room in 0..model.len() {
+            let mut buf = vec![0u8; room];
+            let r = {
+                let mut cur = std::io::Cursor::new(&mut buf[..]);
+                wr(&mut cur, false)
+            };
+            rep.eval(1);
+            if r.is_ok() {
+                rep.violation(&format!("{}|io-write-no-room|reported-ok", name), || format!("vbyte_write_{}({}) into a {}-byte buffer returned {} although the code has {} bytes", name, v, room, r.show(), model.len()), kvf);
+            }
+            let mut sched = vec![Fault::Limit(1); room];
+            sched.push(Fault::Hard);
+            let mut sink = FaultyIo::new(vec![], sched, Fault::Limit(16));
+            let r = wr(&mut sink, true);
+            rep.eval(1);
+            // the error must surface unless the whole code had been accepted before it struck
+            if r.is_ok() && sink.data != model {
+                rep.violation(&format!("{}|io-write-hard-error|swallowed", name), || format!("vbyte_write_{}({}) with a hard error after {} bytes returned {}; sink holds {}", name, v, room, r.show(), hex(&sink.data)), kvf);
+            }
+        }
+        if model.len() >= 2 {
+            rep.case(&("hostile", big, model.len(), v & 0xffff));
+        }
+    }
 }
 
 pub fn check_value(v: u64, ci: usize, rep: &mut Report) {
@@ -214,6 +308,9 @@ pub fn run(ctx: &Ctx) -> Report {
             }
             for (i, v) in vals.iter().enumerate() {
                 check_value(*v, i, rep);
+                if i < 4000 || i % 16 == 0 {
+                    check_hostile_io(*v, i, rep);
+                }
             }
             rep.exhaustive("every length-step boundary 2^7 + 2^14 + ... +-130 up to 10 bytes, 2^i-1..2^i+1, 2^64-1");
         }
@@ -275,7 +372,11 @@ pub fn run(ctx: &Ctx) -> Report {
 pub fn replay(case: &str, rep: &mut Report) {
     let kv = Kv::parse(case);
     let ci = kv.usize("ci");
-    if kv.get("kind") == "value" {
+    if kv.get("kind") == "hostile" {
+        for c in 0..4 {
+            check_hostile_io(kv.u64("v"), ci + c, rep);
+        }
+    } else if kv.get("kind") == "value" {
         for c in 0..40 {
             check_value(kv.u64("v"), ci + c, rep);
         }
